@@ -31,12 +31,12 @@ TOW = [("west_mast", 50.001, 10.002, 5.0), ("hill_top", 50, 10.0005, 7), ("east_
 
 
 def lattice(tier):
-    for nt, ns, threed, vc, dt, ts, forcing in itertools.product((1, 2, 3, 4), (1, 2, 3, 4), (False, True), ("index", "negative", "denormal", "huge"), ("float64", "float32"), ("iso", "index", "width"), ("ustar", "z0-list", "z0-scalar")):
+    for nt, ns, threed, vc, dt, ts, forcing in itertools.product((1, 2, 3, 4), (1, 2, 3, 4), (False, True), ("index", "negative", "denormal", "huge", "simple-flx"), ("float64", "float32"), ("iso", "index", "width"), ("ustar", "z0-list", "z0-scalar")):
         if forcing == "z0-scalar" and ns != 1:
             continue
         if tier == "quick" and vc != "index" and not (nt in (1, 3) and ns in (1, 2)):
             continue
-        if dt == "float32" and vc in ("denormal", "huge"):
+        if dt == "float32" and vc in ("denormal", "huge", "simple-flx"):
             continue  # not representable
         yield {"nt": nt, "ns": ns, "threed": threed, "values": vc, "dtype": dt, "ts": ts, "forcing": forcing}
 
@@ -87,10 +87,18 @@ def build(case):
                 flx, conc = -code * 1e-3, -1.0 / (code + 1.0)
             elif case["values"] == "denormal":
                 flx, conc = code * 1e-310, -code * 4.9e-324
+            elif case["values"] == "simple-flx":
+                # footprints that happen to be exactly representable in single precision (whole numbers, zeros) next to
+                # concentrations that are not
+                flx, conc = np.floor(code) * (i % 2), -(code + 1.0 / 7.0) * 1e-3
             else:
                 flx, conc = code * 1e30, -code * 1.7e300
             step = cfg.met.get_step(s)
-            lst.append({"grid": (X, Y, Z), "conc": conc.astype(case["dtype"]), "flx": flx.astype(case["dtype"]), "tower_name": t.name, "tower_xy": (t.x, t.y), "timestamp": step["timestamp"], "params": step})
+            stamp = step["timestamp"]
+            if case["ts"] == "index" and case["nt"] % 2 == 1:
+                # the caller relabels the results of an index-stamped run with real time labels before saving them
+                stamp = "2024-05-%02dT00:00" % (s + 1)
+            lst.append({"grid": (X, Y, Z), "conc": conc.astype(case["dtype"]), "flx": flx.astype(case["dtype"]), "tower_name": t.name, "tower_xy": (t.x, t.y), "timestamp": stamp, "params": dict(step)})
         res[t.name] = lst
     return cfg, res, x, y, zl
 
